@@ -825,7 +825,16 @@ def fraction_digits(R, P):
             if not has_len and not isdig:
                 bad.append(f.show(f.d(c_))[:60])
     adv = f.calls("aws_byte_cursor_advance")
-    okadv = any("num_digits" in f.show(RU.arg(f, e.node, 1)) for e in adv)
+    # the amount skipped is computed from a variable the scan steps once per digit (a count or an end index)
+    stepped = set()
+    for b in body:
+        for el in f.blocks[b].elems:
+            for x in f.walk(el):
+                if (x["k"] == "un" and x["op"] in ("post++", "pre++")) or (x["k"] == "bin" and x["op"] == "+="):
+                    t_ = f.d(x["a"][0])
+                    if t_ is not None and t_["k"] == "var":
+                        stepped.add(t_["n"])
+    okadv = any(any(RU.uses_var(f, RU.arg(f, e.node, 1), v_) for v_ in stepped) for e in adv)
     R.check(not bad and okadv, "FIELD-MAP", "iso8601:fraction-any-number-of-digits", "%s in %s()" % (FILE, f.name), "the fraction scan stops only at the end of the text or at a non-digit, and all its digits are skipped",
             "the fractional-seconds scan is left on %s: timestamps with more fraction digits than that (microseconds, nanoseconds) are rejected as invalid dates" % bad)
 
